@@ -1,6 +1,6 @@
 CFG = {
-        "gen": [],
-        "props": ["EraVerif.Props.C18"],
+        "gen": ["AddrFns"],
+        "props": ["EraVerif.Props.C18", "EraVerif.Props.C18gen"],
         "required_theorems": ["batch_accepted_iff", "accepted_batch_result", "rejected_batch_no_change",
                               "duplicate_key_rejected", "forged_fresh_member_rejected",
                               "stale_or_nonmember_forgery_tolerated", "stale_skipped_without_verify", "update_changes_only_to_authentic_newer",
@@ -9,9 +9,11 @@ CFG = {
                               "run_never_decreases", "announce_strictly_newer", "announce_wraps_at_u64_max",
                               "final_is_newest_seen", "convergence", "convergence_snapshot",
                               "convergence_needs_unique_signing", "isNewer_strict_total", "isNewer_lexicographic",
-                              "notified_iff"],
+                              "notified_iff", "gen_is_newer_eq", "gen_announce_version_eq", "gen_announce_newer"],
         "technique": "Lean 4 theorems (induction over arbitrary batches / batch lists / operation lists) about an executable "
                      "transcription of ValidatorAddrs::update, ValidatorAddrsWatch::{update,announce} and NetAddress::is_newer "
+                     "; NetAddress::is_newer and the version rule of announce are regenerated from the source on every run "
+                     "(tools/translate_addr.py -> Gen/AddrFns) and proved equal to the model's (Props/C18gen) "
                      "+ differential run of the real ValidatorAddrsWatch (hook network::verif::addrs) against the model",
         "level_text": "Proof (model) + correspondence (code). Proved for every book, committee, batch and every sequence of "
                       "batches / own announcements, unbounded: a batch is accepted iff its keys are pairwise distinct and every "
